@@ -131,6 +131,31 @@ def C14(c):
                        "antisymmetry under swapping; reversal detectors validated only (model with unbounded positions)"])
 
 
+def C16(c):
+    c.proofs()
+    exe = need_harness(c)
+    if exe:
+        r = run_suite(exe, "action", c.seed, c.tier, "C16-action")
+        c.add_suite(r, sig_method)
+        st = r.get("stats", {})
+        c.coverage["exhaustive"] = True
+        c.coverage["explanation"] = (
+            "exhaustive: all 256 i8, all 513 actions (unary observers, from(ratio)), all 513x513 pairs (sub, eq, ne, cmp, "
+            "partial_cmp); f64: +-4 ulp around (k-0.5)/255 and k/255 for every k, specials (NaN payloads, +-inf, +-0, "
+            "subnormals, +-1+-ulp, MAX), bisected exact transition points of the step function, random bit patterns"
+            + ("; thorough: every one of the 2^32 f32 bit patterns in-process (sign, monotone non-decreasing strength, NaN->None) "
+               "with both sides of every one of the 512 transitions validated by the bit-level Lean model" if c.tier == "thorough" else ""))
+        c.coverage["f32_patterns_swept"] = st.get("f32_sweep_patterns", 0)
+    return c.finish(
+        level="proof",
+        trusted=TRUSTED_COMMON + [
+            "bit-level float model lean/YataModel/F64.lean (Nat arithmetic: RNE product, round half away, saturating cast, RNE "
+            "division) is compared with the hardware on every generated pattern; f32 -> f64 widening is exact (IEEE) and trusted",
+            "derived PartialOrd/Ord of the enum modelled as variant order Buy < None < Sell then payload",
+        ],
+        rule="see explanation; the finite parts are enumerated completely, float conversion at every quantiser step")
+
+
 def replay(prop, path):
     """re-run a replay file: real code through the harness, then the driver"""
     text = open(path).read()
@@ -157,4 +182,4 @@ def replay(prop, path):
     return 1 if res["mismatches"] or res.get("error") else 0
 
 
-PROPS = {"C01": C01, "C02": C02, "C03": C03, "C04": C04, "C14": C14}
+PROPS = {"C01": C01, "C02": C02, "C03": C03, "C04": C04, "C14": C14, "C16": C16}
